@@ -420,6 +420,7 @@ class Flattener(object):
         self.defs = defs
         self.next = 0
         self.out = []
+        self.opaque = set()
 
     def fresh(self):
         w = 'v%d' % self.next
@@ -485,7 +486,32 @@ class Flattener(object):
                     if s != pshape:
                         raise FlattenError('%s: argument %s of %s has shape %s, declared %s'
                                            % (where, pname, g.name, list(s), list(pshape)))
-                r = self.run(g, vals)
+                base = g.name.split('_')[0]
+                if base in self.opaque:
+                    # the recorder's opaque-gadget line (harness/recorder: `--opaque=…`): the call is
+                    # recorded, the body is not entered.  Poseidon2: scalar result, no parameters;
+                    # KeccakGadget_<len>_<lane>_<rc>_<InputSize>_<OutputSize>_<Rounds>_<BlockSize>_<Domain>:
+                    # the Go-level parameters are the last five numbers of the specialised name, the
+                    # arguments are the wires of InputData (the round constants are Go constants)
+                    if base == 'Poseidon2':
+                        ops = [self.scalar(x, env, where) for x in st[2]]
+                        w = self.fresh()
+                        out.append('%s = call Poseidon2 | %s' % (w, ' '.join(ops)))
+                        r = w
+                    elif base == 'KeccakGadget':
+                        nums = g.name.split('_')[1:]
+                        if len(nums) != 8 or g.kshape is None or len(g.kshape) != 1:
+                            raise FlattenError('%s: unexpected KeccakGadget specialisation %s' % (where, g.name))
+                        data = []
+                        flat(vals[0], data)
+                        n = g.kshape[0]
+                        first = self.next
+                        r = [self.fresh() for _ in range(n)]
+                        out.append('v%d+%d = call KeccakGadget %s |%s' % (first, n, ' '.join(nums[3:]), ''.join(' ' + x for x in data)))
+                    else:
+                        raise FlattenError('%s: no opaque form for gadget %s' % (where, g.name))
+                else:
+                    r = self.run(g, vals)
                 if st[3] is not None:
                     if not g.has_k:
                         raise FlattenError('%s: result of %s bound but it has no continuation' % (where, g.name))
@@ -586,6 +612,10 @@ def main(argv):
                 print('%s %s%s' % (d.name, ' '.join('%s:%s' % (n, 'x'.join(map(str, s)) or 'F') for n, s in d.params),
                                    (' -> ' + ('x'.join(map(str, d.kshape)) or 'F')) if d.has_k else ''))
             return 0
+        elif len(argv) == 4 and argv[1].startswith('--opaque='):
+            fl = Flattener(parse_file(read(argv[2])))
+            fl.opaque = set(argv[1][len('--opaque='):].split(','))
+            lines = fl.flatten(argv[3])
         elif len(argv) == 3 and not argv[1].startswith('--'):
             lines = Flattener(parse_file(read(argv[1]))).flatten(argv[2])
         else:
